@@ -13,6 +13,13 @@ Line-protocol driver for the C19 model.
   loop <T|F silent> <n> <reg>*n <tasks>              registrations, then the beacon loop over scripted get_task() results
   lspec <T|F silent> <n> <reg>*n <tasks>             the declarative specification of the same
   gh <n> <reg>*n <keys>                              registrations, then get_handlers(k) for each key
+  hist <step>+                                       a history on ONE client object; one answer per step, then task_map
+     steps: S<int> | J<int>                          assign sleeptime / jitter
+            R/<id>/<s>/<j>/<computer>/<user>/<process>/<expected bid|n>/<aesrand hex>/<digest hex>   run(dry_run=True, …)
+            U<un>/<ud>                               get_sleep_time with the draw un/ud
+            G<key> | T<T|F><key>                     get_handlers(key) | one loop iteration (silent flag, get_task result)
+            I                                        metadata.bid : aes_rand : aes key : hmac key : info
+            <reg>                                    a registration (lower-case first letter)
 
   handler code = id*32 + callable + 2*truthy + 4*raises + 8*responds + 16*form   (form: harness only)
   reg  = h/<arg>/<hc> | r/<key>/<hc> | c/<hc> | a/<name>/<hc> | k/<name>/<hc>
@@ -125,6 +132,72 @@ def ghAll (c : Client) : List Key → List String × Client
     let (o, c') := ghAll c1 ks
     (showIds (c1.readList hr) :: o, c')
 
+def excChar : PyExc → String
+  | .attributeError => "A"
+  | .valueError => "E"
+  | _ => "?"
+
+def histStepTok (s : String) : Option HStep :=
+  match s.toList with
+  | 'S' :: r => (String.ofList r).toInt?.map .setSleep
+  | 'J' :: r => (String.ofList r).toInt?.map .setJitter
+  | 'U' :: r =>
+    match (String.ofList r).splitOn "/" with
+    | [a, b] => do
+      let a ← a.toInt?
+      let b ← b.toNat?
+      if b == 0 then none else pure (.sleep ⟨a, b⟩)
+    | _ => none
+  | 'G' :: r => (keyTok (String.ofList r)).map .getHandlers
+  | 'T' :: 'T' :: r => (keyTok (String.ofList r)).map (.task true)
+  | 'T' :: 'F' :: r => (keyTok (String.ofList r)).map (.task false)
+  | ['I'] => some .show
+  | 'R' :: _ =>
+    match s.splitOn "/" with
+    | [_, i, sl, j, c, u, q, _, _, _] => do
+      let i ← i.toInt?
+      let sl ← sl.toInt?
+      let j ← j.toInt?
+      let c ← nameTok c
+      let u ← nameTok u
+      let q ← nameTok q
+      pure (.run i sl j c u q)
+    | _ => none
+  | _ => (regTok s).map .reg
+
+/-- the values of the primitives supplied with an `R` step: (expected presented id, aes_rand, digest) -/
+def primRow (s : String) : Option (Option (Int × Bytes × Bytes)) :=
+  match s.toList with
+  | 'R' :: _ =>
+    match s.splitOn "/" with
+    | [_, _, _, _, _, _, _, b, ar, dg] =>
+      if b == "n" then some none
+      else do
+        let b ← b.toInt?
+        let ar ← Hex.decode ar
+        let dg ← Hex.decode dg
+        pure (some (b, ar, dg))
+    | _ => none
+  | _ => some none
+
+def primsOfRows (rows : List (Int × Bytes × Bytes)) : Prims :=
+  { aesRand := fun b => match rows.find? (fun r => r.1 == b) with
+      | some r => r.2.1
+      | none => []
+    sha256 := fun x => match rows.find? (fun r => r.2.1 == x) with
+      | some r => r.2.2
+      | none => [] }
+
+def showAnswer : HAnswer → String
+  | .done => "."
+  | .exc e => excChar e
+  | .frac f => (showFrac f).replace " " "/"
+  | .handlers hs => showIds hs
+  | .events es none => showEvents es
+  | .events es (some e) => showEvents es ++ "!" ++ excChar e
+  | .ident a =>
+    s!"{a.beaconId}:{Hex.encode a.keys.aesRand}:{Hex.encode a.keys.aesKey}:{Hex.encode a.keys.hmacKey}:{Hex.encode a.info}"
+
 def step : List String → String
   | ["id", i] =>
     match intTok i with
@@ -182,6 +255,15 @@ def step : List String → String
         s!"{if outs.isEmpty then "-" else ",".intercalate outs} {showRegErrs errs} {showView c'.view}"
       | none => "bad-op"
     | none => "bad-op"
+  | "hist" :: toks =>
+    if toks.isEmpty then "bad-op"
+    else
+      match toks.mapM histStepTok, toks.mapM primRow with
+      | some steps, some rows =>
+        let p := primsOfRows (rows.filterMap id)
+        let (st, answers) := runHistory p {} steps
+        " ".intercalate (answers.map showAnswer) ++ " " ++ showView st.client.view
+      | _, _ => "bad-op"
   | _ => "bad-op"
 
 end C19
